@@ -332,3 +332,36 @@ def cmp3d_row(im, i, r, tol):
     if fin and ci != 'HUGE' and ci > min(fin) + 1e-7 * (1 + min(fin)):
         out.append('chi2 %r is not the grid minimum %r' % (ci, min(fin)))
     return out, k
+
+
+def shrink(case):
+    """smaller variants of a fit case: fewer models, fewer bands, rounder numbers (used by the replay shrinker)"""
+    import copy
+    nm, nb = len(case['names']), len(case['wav'])
+    for i in range(nm):
+        if nm > 1:
+            c = copy.deepcopy(case)
+            del c['names'][i]
+            del c['flux'][i]
+            yield c
+    for j in range(nb):
+        if nb > (2 if case['mode'] == '2d' else 1):
+            c = copy.deepcopy(case)
+            del c['wav'][j]
+            for k in ('flags', 'flux', 'err'):
+                del c['src'][k][j]
+            for row in c['flux']:
+                del row[j]
+            if 'theta' in c:
+                del c['theta'][j]
+                del c['aps'][j]
+            for extra in ('variants', 'others'):
+                c.pop(extra, None)
+            if sum(1 for f in c['src']['flags'] if f in (1, 4)) >= (2 if case['mode'] == '2d' else 1):
+                yield c
+    if len(case['ext']['wav']) > 3:
+        c = copy.deepcopy(case)
+        keep = [0, len(c['ext']['wav']) // 2, len(c['ext']['wav']) - 1]
+        c['ext'] = dict(wav=[c['ext']['wav'][i] for i in keep], chi=[c['ext']['chi'][i] for i in keep])
+        if c['ext']['wav'][0] <= V_UM <= c['ext']['wav'][-1]:
+            yield c
